@@ -226,6 +226,11 @@ func buildCorpus(thorough bool) []corpusCase {
 	})
 	cs = append(cs, boundaryCorpus()...)
 	if thorough {
+		// a block body with MaxTransactionsPerBlock and one more (really present) minimal transactions
+		one := simpleTx().Bytes()
+		for _, n := range []int{block.MaxTransactionsPerBlock, block.MaxTransactionsPerBlock + 1} {
+			add(rawCase("block0", cat(headerBytes(false), minimalVarUint(uint64(n)), repeat(one, n))))
+		}
 		// maximum payload: 32 MiB of zeroes claimed and present
 		add(rawCase("message0", cat([]byte{0, byte(network.CMDExtensible)}, mustHex("fe00000002"), make([]byte, 0x2000000))))
 		add(rawCase("extensible", cat([]byte{0}, make([]byte, 28), mustHex("fe00000002"), make([]byte, 0x2000000), []byte{1, 0, 0})))
